@@ -28,6 +28,14 @@ P_POLYS = {
     "U": [(-6, -7), (21, -6), (20, 18), (15, 18), (14, 0), (3, 2), (2, 18), (-5, 17)],
 }
 P_ORDER = ["sqA", "sqB", "triA", "bar", "dia", "inner", "L", "notch", "far", "big", "U"]
+# four nested irregular quadrilaterals N1 > N2 > N3 > N4 (and a small one beside N4 inside N3)
+N_POLYS = {
+    "N1": [(-20, -21), (31, -19), (33, 30), (-19, 32)],
+    "N2": [(-9, -10), (25, -9), (26, 23), (-8, 24)],
+    "N3": [(-1, -3), (18, -1), (17, 16), (-3, 15)],
+    "N4": [(4, 5), (11, 4), (12, 10), (5, 11)],
+    "N5": [(0, 0), (2, -1), (3, 2), (1, 3)],
+}
 
 
 def _lattice_triangles(coords):
@@ -98,6 +106,9 @@ def variant_map(variant):
         return lambda x, y, i: (F(x, 2), F(y, 2))
     if variant == "fhalf":
         return lambda x, y, i: (0.5 * x, 0.5 * y)
+    if variant == "rnd":  # unrelated three-digit denominators: crossing parameters get huge denominators
+        dens = (101, 103, 107, 109, 113, 127, 131, 137, 139, 149)
+        return lambda x, y, i: (x + F(i + 1, dens[i % 10]), y - F(2 * i + 1, dens[(i + 3) % 10]))
     if variant == "fr1":  # Fraction objects with denominator 1
         return lambda x, y, i: (F(x), F(y))
     if variant == "ifr":  # int and Fraction mixed inside one point
@@ -183,6 +194,8 @@ def leaf_data(name):
     variant = variant or "int"
     if fam == "P":
         verts = P_POLYS[key]
+    elif fam == "N":
+        verts = N_POLYS[key]
     elif fam == "TA":
         verts = TT_A[int(key)]
     elif fam == "TB":
@@ -268,8 +281,11 @@ PC_DEFS = {
     "xhollow": ("D", ["P.big@cw", "P.inner", "P.notch"]),  # complement of hollow
     "xtwo": ("C", ["P.inner@cw", "P.far@cw"]),  # complement of two
     "xring": ("D", ["P.big@cw", "P.sqA"]),
+    # unbounded, holes close together: the box of its curves is far from P.far
+    "xnear": ("C", ["P.inner@cw", "P.notch@cw"]),
+    "twonear": ("D", ["P.inner", "P.notch"]),
 }
-PC_ORDER = ["hollow", "two", "holeisland", "ringfar", "xhollow", "xtwo", "ring", "xring"]
+PC_ORDER = ["hollow", "two", "holeisland", "ringfar", "xhollow", "xtwo", "ring", "xring", "xnear", "twonear"]
 
 
 def _with_variant(member, variant):
